@@ -948,7 +948,7 @@ def load_known():
             if k.get('property') == 'C14' and k.get('suite') == SUITE]
 
 
-def run(tier, seed):
+def _run(tier, seed):
     res = SuiteResult(SUITE)
     res.rule = ('case = a history database (synthetic: 1-60 real History.flush calls over hashXs that share 2-byte '
                 'prefixes incl. the state record\'s, rows of 1..3x the compacted row size with max_hist_row_entries 3/4 '
@@ -1083,6 +1083,8 @@ def replay(case):
 
 def known_reproduces(finding):
     """Replays the witness of a recorded finding on the real code."""
+    from harness.world import realindex
+    realindex.SCALE_STORAGE = False
     install_hooks()
     try:
         res = SuiteResult(SUITE)
@@ -1138,3 +1140,15 @@ def matches_known(v, finding):
         keep = (v['utxo_flush_count'] + 1) * v['maxrow']
         return bool(v.get('after_is_prefix_of_before')) and v.get('after_len') == keep and v.get('before_len', 0) > keep
     return False
+
+
+def run(tier, seed):
+    # the real compaction script opens the database itself, with the production split-file sizes: the
+    # scaled-down sizes other suites use on every other directory cannot be used here
+    from harness.world import realindex
+    saved = realindex.SCALE_STORAGE
+    realindex.SCALE_STORAGE = False
+    try:
+        return _run(tier, seed)
+    finally:
+        realindex.SCALE_STORAGE = saved
